@@ -299,3 +299,10 @@ Fixpoint py_filter {X} (f : X -> res bool) (xs : list X) : res (list X) :=
   | [] => Ok []
   | x :: r => b <- f x ;; ys <- py_filter f r ;; Ok (if b then x :: ys else ys)
   end.
+
+(* objects that may or may not be strings (None = not a string): set(..) of them, string methods *)
+Definition optstr_eqb (a b : option String.string) : bool :=
+  match a, b with Some x, Some y => String.eqb x y | None, None => true | _, _ => false end.
+Fixpoint optstr_set (l : list (option String.string)) : list (option String.string) :=
+  match l with [] => [] | x :: r => if existsb (optstr_eqb x) r then optstr_set r else x :: optstr_set r end.
+Definition py_str (o : option String.string) : res String.string := match o with Some s => Ok s | None => Raise TypeError end.
